@@ -314,3 +314,5 @@ _patch('C06', 'level_note', 'A-shape', 'A-shape (discharged at the source for wh
 _patch('C01', 'level_text', 'Unbounded proof', 'The compile scheme of the control flow and operators (compilerd / forc / funcc units, stub-and-log extraction of the real Compiler::binary / unary / ternary / if_ / while_ / for_ / function): operands in source order with the instruction of their operator, and / or jumping forward over the right operand, exactly one ternary or if branch, while and for loops with the condition (the iterator step) at the start label, a forward exit and a backward Loop, an expression-bodied function returning its value. Unbounded proof')
 _patch('C20', 'level_text', 'Complete (all usize lengths):', 'The native-call boundary keeps the temporary-root stack at its entry height on every path, including natives that fail through a `?` past their own pop_roots (ncall unit, Vm::call_native / release_native_roots; D34 found and fixed: such natives leaked roots without bound). Complete (all usize lengths):')
 _patch('C13', 'level_note', 'A-slot', 'A-slot (the part "the cache of module m is at index m.id()" is now an obligation: cacheidx unit, D35 found and fixed)')
+_patch('C01', 'level_text', 'Unbounded proof', 'Operator precedence and associativity (prattloop / prattops units): the real Parser::parse_precedence keeps the Pratt invariant (at binding power p one prefix action, then infix actions only for operators binding at least as tightly as p, each applied to the expression built so far, returning exactly when the next token binds more loosely; assignable only from the loosest level), and the real binary / and / or / unary / ternary / expr / prefix / infix hand it the right level: a binary operator parses its right operand exactly one level tighter (left associative), and / or at their own level or one tighter, a prefix operator at Unary, ternary branches as whole expressions; each builds the node its token spells. The order of the levels is generated from the declaration of enum Precedence, the binding power of each token is what the Kani table harness proves. Unbounded proof')
+_patch('C01', 'level_note', 'Not decided: parser, compiler lowering, call protocol.', 'Not decided: the statement and primary-expression parsers, which parse action the tables give a token (only its binding power), termination of the Pratt loop, scope-exit drops, call protocol.')
